@@ -192,7 +192,7 @@ T_ALPHA = sorted(SLOTS)
                     "polyply.src.topology:Topology.from_gmx_topfile"],
            rejects=(), selector_only=True,
            must_cover=["read", "error directive", "malformed rejected", "conditional include taken", "conditional include skipped", "nested include", "repeated name",
-                       "same include string in two directories"],
+                       "same include string in two directories", "directives spelled with extra whitespace"],
            outside=["#define inside a conditional, nested conditionals (rejected by the reader by design)", "macros with values in conditions",
                     "data lines that continue a section across an #include", "the GROMACS include search path"],
            cfg={"path_timeout_s": 60},
@@ -209,7 +209,17 @@ def flatten_cond(sx, B):
     k = B["k"]
     slots = [sx.sel("slot%d" % i, B["alpha"]) for i in range(k)]
     mollist = sx.sel("molecules", B["mollists"])
-    body = "\n".join(SLOTS[s] for s in slots)
+    # directives may be written with any amount of blanks / tabs after the keyword and trailing blanks
+    spelling = sx.sel("directive_spelling", ["single blank", "blanks and tabs"]) if any(SLOTS[s].startswith("#") for s in slots) else "single blank"
+
+    def spell(line):
+        if spelling == "single blank" or not line.startswith("#") or line.startswith("#error"):
+            return line
+        tok = line.split(None, 1)
+        return tok[0] + (("  \t" + tok[1]) if len(tok) > 1 else "") + "  "
+    if spelling != "single blank":
+        sx.cover("directives spelled with extra whitespace")
+    body = "\n".join(spell(SLOTS[s]) for s in slots)
     # everything the [ molecules ] list needs is included unconditionally first so that most inputs are readable
     head = '#include "ff.itp"\n'
     tail = "\n[ system ]\ntest system\n[ molecules ]\n" + "\n".join("%s %d" % (n, c) for n, c in mollist) + "\n"
